@@ -285,7 +285,7 @@ def oracle_c02(rec):
     np = L['np']
     issues = []
     stats = dict(dumps=0, min_in_trial=0, ties=0)
-    if rec['cfg']['hook'] not in ('observer', 'relist', 'swap'):
+    if rec['cfg']['hook'] not in ('observer', 'relist', 'swap', 'rebest'):
         # hooks that only re-order the population (or install a re-ordered list) change no position and no fitness
         return issues, stats
     vals = []   # (arg, val, kind)
@@ -563,7 +563,7 @@ def oracle_c07(rec):
             if refs is not None and sorted(r) != sorted(refs):
                 stats['replaced'] += 1
             refs = r
-    if rec['error'] is None and rec.get('space') is not None and cfg['hook'] == 'observer':
+    if rec['error'] is None and rec.get('space') is not None and cfg['hook'] in ('observer', 'rebest'):
         # write-through: bump each agent, nobody else may move
         L = lib.load()
         np = L['np']
@@ -714,7 +714,7 @@ def oracle_c20(rec):
     cfg = rec['cfg']
     kind = cfg['kind']
     issues, stats = [], dict(records=0, greedy_pairs=0)
-    if rec['error'] is not None or cfg['hook'] != 'observer':
+    if rec['error'] is not None or cfg['hook'] not in ('observer', 'rebest'):
         return issues, stats
     of = rec['of']
     dumps = [(i, e) for i, e in enumerate(rec['events']) if e['t'] == 'dump']
